@@ -42,7 +42,7 @@ def table_b():
         if by:
             obl += " (" + ", ".join(f"{k} {v}" for k, v in sorted(by.items())) + ")"
         bounded = cov.get("bounded", {}).get("evaluations", cov.get("evaluations", "?"))
-        out.append(f"| {pid} | {cell(', '.join(fns))}{'; static: ' + cell(', '.join(map(str, statics))) if statics else ''} | {obl} | {bounded} | "
+        out.append(f"| {pid} | {cell(', '.join(fns))}{'; static: ' + cell(', '.join(getattr(x, '__name__', str(x)) for x in statics)) if statics else ''} | {obl} | {bounded} | "
                    f"{cell('; '.join(P.get('not_decided', [])))} | {cell('; '.join(dict.fromkeys(P.get('assumptions', []))))} |")
         notes.append(f"* **{pid}** — {P.get('explanation', '').strip()}")
     return "\n".join(out) + "\n\nWhat the discharged obligations say, per property (text of `props.PROPS[...]['explanation']`, also in each evidence file):\n\n" + "\n".join(notes)
